@@ -47,6 +47,13 @@ func schedCorpus(out *cq.Out) {
 			schedFeed("park", a, 104, 108, pt), schedFeed("feed", b, 2000, 2010, "", ib(2, 2005), ib(3, 2005)),
 			{kind: "resume", spch: a.src[0][1]}, schedFeed("feed", b, 2010, 2011, "")}, "corpus: tick-only pack held at "+pt)
 	}
+	// a pack of A has been timed and has its place in the channel's send order (it is held just before it is put on the queue)
+	// while B's pack is computed: B's pack may not overtake it
+	late := schedFeed("feed", b, 2000, 2010, "", ib(4, 2005))
+	late.nowait = true
+	runSched(out, []label{{kind: "start", c: a}, {kind: "start", c: b}, schedFeed("feed", a, 100, 104, "", ia(1, 102)), schedFeed("feed", b, 50, 60, "", ib(2, 55)),
+		schedFeed("park", a, 104, 108, "send", ia(3, 106)), late, {kind: "resume", spch: a.src[0][1]}, schedFeed("feed", a, 108, 110, "")},
+		"corpus: held at send while the other handler's pack is computed")
 }
 
 func genSched(a *hx.Args) []label {
